@@ -91,6 +91,8 @@ def homog_matrix(kind, seed, d):
         H[:d, d] = g.uniform(-3, 3, size=d) + np.where(g.rand(d) < 0.5, 1.0, -1.0)
     elif kind == "UniformScale":
         s = math.exp(g.uniform(0.15, 0.7)) ** (1 if g.rand() < 0.5 else -1)
+        if g.rand() < 0.25:
+            s = -s          # a point reflection combined with a scaling is a uniform scale, too
         H[:d, :d] = s * np.eye(d)
     elif kind == "NonUniformScale":
         s = np.exp(g.uniform(0.15, 0.7, size=d) * np.where(g.rand(d) < 0.5, 1, -1))
